@@ -57,7 +57,8 @@ impl Syllable {
         self.segments[pos] = *seg;
 
         if let Some(m) = mods {
-            lc += self.apply_seg_mods(alphas, m, pos, err_pos)?;
+            // one copy has been written: an identical neighbour is another segment
+            lc += self.apply_seg_mods_to(alphas, m, pos, 1, err_pos)?;
         }
 
         Ok(lc)
@@ -110,8 +111,15 @@ impl Syllable {
     pub(crate) fn apply_seg_mods(&mut self, alphas: &RefCell<HashMap<char, Alpha>>, mods: &Modifiers, start_pos: usize, err_pos: Position) -> Result<i8, RuleRuntimeError> {
         // check seg length, if long then we must apply mods to all occurences (we assume that we are at the start)
         // debug_assert!(self.in_bounds(start_pos));
+        let seg_len = self.get_seg_length_at(start_pos);
+        self.apply_seg_mods_to(alphas, mods, start_pos, seg_len, err_pos)
+    }
+
+    /// As `apply_seg_mods`, for a segment known to be `own_len` copies long: a segment that has just been written next to an
+    /// identical one looks like one longer run, but the modifiers (and the length they ask for) are those of the written segment alone
+    pub(crate) fn apply_seg_mods_to(&mut self, alphas: &RefCell<HashMap<char, Alpha>>, mods: &Modifiers, start_pos: usize, own_len: usize, err_pos: Position) -> Result<i8, RuleRuntimeError> {
         let mut pos = start_pos;
-        let mut seg_len = self.get_seg_length_at(pos);
+        let mut seg_len = own_len;
         while seg_len > 0 {
             #[cfg(feature = "verif")] crate::verif::tick(704);
             let seg = self.segments.get_mut(pos).expect("position is in bounds");
@@ -120,12 +128,12 @@ impl Syllable {
             pos +=1;
         }
         // Really, this should be first so that we don't have to needlessly apply mods if we apply -long
-        self.apply_supras(alphas, &mods.suprs, start_pos, err_pos)
+        self.apply_supras(alphas, &mods.suprs, start_pos, own_len, err_pos)
     }
 
-    pub(crate) fn apply_supras(&mut self, alphas: &RefCell<HashMap<char, Alpha>>, mods: &SupraSegs, pos: usize, err_pos: Position) -> Result<i8, RuleRuntimeError> {
+    pub(crate) fn apply_supras(&mut self, alphas: &RefCell<HashMap<char, Alpha>>, mods: &SupraSegs, pos: usize, own_len: usize, err_pos: Position) -> Result<i8, RuleRuntimeError> {
         let seg = self.segments[pos];
-        let mut seg_len = self.get_seg_length_at(pos);
+        let mut seg_len = own_len;
         let mut len_change = 0;
         match mods.length {
             // [long, Overlong]
